@@ -73,6 +73,8 @@ class C13(Harness):
         for K in ('A', 'B'):
             ops.append(['csetp', K, 'z'])          # a Parameter object assigned as a class attribute
             ops.append(['csetp', K, 'x'])
+        # a Parameter whose default violates the bounds it inherits: the addition is refused and leaves nothing behind
+        ops += [['addp_bad', 'B'], ['csetp_bad', 'B'], ['csetp_bad', 'C']]
         if len(w['inst']) < 2:
             ops += [['new', 'B'], ['new', 'C'], ['new', 'A'], ['new', 'D'], ['new', 'E']]
         for i in range(len(w['inst'])):
@@ -101,6 +103,16 @@ class C13(Harness):
                 setattr(K, 'z', param.Number(default=7))
             else:
                 setattr(K, 'x', param.Number(default=4, bounds=(0, 100)))
+        elif k in ('addp_bad', 'csetp_bad'):
+            K = w[op[1]]
+            bad = param.Number(default=20)          # x inherits bounds (0, 10) (or (0, 100) after a replacement higher up: then it is simply added)
+            try:
+                if k == 'addp_bad':
+                    K.param.add_parameter('x', bad)
+                else:
+                    setattr(K, 'x', bad)
+            except (RuntimeError, ValueError):
+                pass
         elif k == 'new':
             w['inst'].append(w[op[1]]())
         elif k == 'iset':
